@@ -122,7 +122,21 @@ def run(res, proof):
     quick = res.tier == 'quick'
     structs = [s for s in gen.wellformed_structures(5 if quick else 6, 4) if '+' in s or len(s) <= 2]
     rng.shuffle(structs)
-    structs = structs[:60 if quick else 600] + ['(.+)+.', '((+))+(+)', '.+.+.', '(+)']
+    # structures whose exterior loops hold no unpaired position while an enclosed loop does (empty-but-populated caches)
+    special = []
+    for st in gen.wellformed_structures(6, 3):
+        if '+' not in st:
+            continue
+        li, ext, comps = ref.ref_loops(st.split('+'))
+        if len(comps) != 1:
+            continue
+        pt = ref.ref_pair_table(st)
+        exd = [1 for si, row in enumerate(pt) for di, p in enumerate(row) if p is None and li[si][di] in ext]
+        end = [1 for si, row in enumerate(pt) for di, p in enumerate(row) if p is None and li[si][di] not in ext]
+        if not exd and end:
+            special.append(st)
+    rng.shuffle(special)
+    structs = structs[:60 if quick else 600] + ['(.+)+.', '((+))+(+)', '.+.+.', '(+)'] + special[:12 if quick else 200]
     pre = ['reset', 'mk.dom\t0\ta\t5\t-\t-', 'mk.dom\t0\tb\t5\t-\t-']
     hmap = {'a': 0, 'b': 1}
     lines, impl = [], []
@@ -151,15 +165,20 @@ def run(res, proof):
         ops += ['q\th2\tstrand_length\t%d' % k for k in range(n)]
         l0 = rng.choice(nloc)
         ops += ['q\th2\t%s\t%d.%d' % (v, l0[0], l0[1]) for v in LOCVIEWS]
+        ops += ['peek\th2\trotate', 'peek\th2\trotate_pt']         # abandoned iterations
         # all sequences of length <= 2 (quick: length 2 sampled), the classic stale-cache shape of length 3, random long ones
         for op in ops:
             run_seq(s, names, [op])
         pairs = list(itertools.product(ops, repeat=2))
         for combo in (rng.sample(pairs, 40) if quick else pairs):
             run_seq(s, names, list(combo))
-        for q in ['q\th2\t%s\t' % v for v in ('pair_table', 'strand_table', 'exterior', 'enclosed', 'rotate', 'is_connected', 'size')] + ops[-3:]:
+        for q in ['q\th2\t%s\t' % v for v in ('pair_table', 'strand_table', 'exterior', 'enclosed', 'rotate', 'is_connected', 'size')] + ops[-5:]:
             for v in (1, -1, 2):
                 run_seq(s, names, [q, 'set.turns\th2\t%d' % v, q])
+        for pk in ('peek\th2\trotate', 'peek\th2\trotate_pt'):
+            for v in (1, 2, -1):
+                run_seq(s, names, [pk, 'q\th2\trotate\t', 'set.turns\th2\t%d' % v, pk, 'set.turns\th2\t%d' % (v + 1), 'q\th2\trotate_pt\t'])
+                run_seq(s, names, [pk, 'set.turns\th2\t%d' % v, 'q\th2\tsequence\t'])
         for _ in range(3 if quick else 12):
             run_seq(s, names, [rng.choice(ops) for _ in range(rng.randint(4, 30))])
         res.count('strands_%d' % min(n, 5))
